@@ -458,7 +458,9 @@ def h_oauthbearer(as_str):
     prove(len(log) == 1 and log[0][1] == "AUTHENTICATE", "P.oauthbearer.one-AUTHENTICATE")
     a = log[0][2]
     prove(len(a) == 2 and a[0] == b"OAUTHBEARER", "P.oauthbearer.mechanism-name")
-    prove(a[1] == base64.b64encode(b"n,a=" + blogin + b",\x01auth=Bearer " + bpass + b"\x01\x01"),
+    # RFC 7628 section 3.1 with the gs2 header of RFC 5801: the authorisation identity is a saslname ("=" -> "=3D", then "," -> "=2C")
+    saslname = blogin.replace(b"=", b"=3D").replace(b",", b"=2C")
+    prove(a[1] == base64.b64encode(b"n,a=" + saslname + b",\x01auth=Bearer " + bpass + b"\x01\x01"),
           "P.oauthbearer.rfc7628-message")
     if kind == "return":
         prove(r is (G["codes"][0] == "OK"), "P.oauthbearer.true-iff-OK")
